@@ -246,7 +246,12 @@ pub fn run(ctx: &Ctx) -> Report {
                     h.extend(vec![0u8; n - 32]);
                     wire::append_raw(&mut b, wire::MI256, &h);
                 }
+                // the same followed by a FINGERPRINT (seed C04-n: a 24-byte SHA-256 value + FINGERPRINT leaves
+                // as many bytes as a full SHA-256 attribute in last position)
+                let mut bf = b.clone();
+                wire::append_fp(&mut bf);
                 ref_sealed.push((b, c.clone(), format!("reference MI256/{n} lead_mi={lead}")));
+                ref_sealed.push((bf, c.clone(), format!("reference MI256/{n} lead_mi={lead} + FP")));
             }
         }
         // MI256 before MI (builder refuses this order), both correct
